@@ -40,8 +40,8 @@ def _check_result(ctx, r, tz, Ts, offs, u_exp, us_exp, label):
         ctx.claim(f"{label}: stays naive", r.tzinfo is None)
 
 
-def add_units(ctx, kind, days, ylo, yhi, ntrans=1, signs=(0, 0, 0, 0), method="add", units="hmsu", shape=None):
-    x, tz, Ts, offs, u, us = _source(ctx, kind, ylo, yhi, ntrans, shape)
+def add_units(ctx, kind, days, ylo, yhi, ntrans=1, signs=(0, 0, 0, 0), method="add", units="hmsu", shape=None, fold=None):
+    x, tz, Ts, offs, u, us = _source(ctx, kind, ylo, yhi, ntrans, shape, fold_fixed=fold)
     hours = mixed_amount(ctx, "hours", "h", days, neg=bool(signs[0])) if "h" in units else 0
     minutes = mixed_amount(ctx, "minutes", "m", days, neg=bool(signs[1])) if "m" in units else 0
     seconds = mixed_amount(ctx, "seconds", "s", days, neg=bool(signs[2])) if "s" in units else 0
@@ -65,8 +65,8 @@ def add_units(ctx, kind, days, ylo, yhi, ntrans=1, signs=(0, 0, 0, 0), method="a
     ctx.observe("r", fields(r) + [off_seconds(r), r.fold])
 
 
-def timedelta_ops(ctx, kind, op, days, ylo, yhi, ntrans=1, shape=None):
-    x, tz, Ts, offs, u, us = _source(ctx, kind, ylo, yhi, ntrans, shape)
+def timedelta_ops(ctx, kind, op, days, ylo, yhi, ntrans=1, shape=None, fold=None):
+    x, tz, Ts, offs, u, us = _source(ctx, kind, ylo, yhi, ntrans, shape, fold_fixed=fold)
     d = ctx.int("td_d", -days, days)
     s = ctx.int("td_s", 0, 86399)
     m = ctx.int("td_us", 0, 999999)
@@ -128,7 +128,7 @@ def cases(tier):
             if tier == "quick" and kind == "zone":
                 # the carry chain with all four units is decided on utc/fixed/naive; with a zone the quick tier
                 # takes the units two at a time (thorough: all four, all sign patterns)
-                combos = [(u, sg) for u in ("hu", "ms") for sg in sign_patterns]
+                combos = [(u, sg) for u in ("hu", "ms") for sg in sign_patterns[1:3]]     # mixed signs; equal signs: utc/fixed/naive
             elif tier == "quick" and kind in ("fixed", "naive"):
                 combos = [("hmsu", sg) for sg in sign_patterns[:1] + sign_patterns[-1:]] + [("ms", sign_patterns[1])]
             else:
@@ -141,9 +141,10 @@ def cases(tier):
             for units, sg in combos:
               for method in methods:
                for shape in (("gap", "overlap") if kind == "zone" else (None,)):
-                out.append(dict(name=f"{method} {kind}{nt if kind == 'zone' else ''} {shape or ''} units={units} signs={''.join('-' if x else '+' for x in sg)}",
+                for fold in ((0, 1) if (kind == "zone" and shape == "overlap") else (None,)):
+                  out.append(dict(name=f"{method} {kind}{nt if kind == 'zone' else ''} {shape or ''}{'' if fold is None else ' fold=%d' % fold} units={units} signs={''.join('-' if x else '+' for x in sg)}",
                                 fn=add_units, params=dict(kind=kind, days=dd, ylo=w[0], yhi=w[1], ntrans=nt, signs=sg,
-                                                          method=method, units=units, shape=shape),
+                                                          method=method, units=units, shape=shape, fold=fold),
                                 bounds=f"every valid DateTime ({kind}) in years {w[0]}..{w[1]}, both folds x units {units} of "
                                        f"hours/minutes/seconds/microseconds (signs {sg}: 1 = negative) each spanning up to {dd} days"
                                        + (f" x every zone with {nt} transition(s) within +-400 days" if kind == "zone" else "")))
@@ -152,9 +153,10 @@ def cases(tier):
           if tier == "quick" and kind == "zone" and op == "radd":
               continue            # __radd__ is __add__; decided on utc/naive in the quick tier
           for shape in (("gap", "overlap") if kind == "zone" else (None,)):
+           for fold in ((0, 1) if (kind == "zone" and shape == "overlap") else (None,)):
             w = (2000, 2000) if (tier == "quick" and kind == "zone") else win
-            out.append(dict(name=f"timedelta {op} {kind} {shape or ''}", fn=timedelta_ops,
-                            params=dict(kind=kind, op=op, days=min(days, 99000), ylo=w[0], yhi=w[1], shape=shape),
+            out.append(dict(name=f"timedelta {op} {kind} {shape or ''}{'' if fold is None else ' fold=%d' % fold}", fn=timedelta_ops,
+                            params=dict(kind=kind, op=op, days=min(days, 99000) if tier != "quick" else 40, ylo=w[0], yhi=w[1], shape=shape, fold=fold),
                             bounds=f"every valid DateTime ({kind}) in years {win[0]}..{win[1]} x every native timedelta with "
                                    f"|days| <= {min(days, 99000)} (float path: total_seconds() < 2^33 s)"))
     for edge in ("min", "max"):
